@@ -44,6 +44,10 @@ def make_hook(world_ref, wname, hname, outcome, log):
                            if k in ('pid', 'signum')}})
         if outcome == 'raise':
             raise HookRaised("%s of %s raises" % (hname, wname))
+        if outcome == 'third-false':
+            n = len([e for e in log if e["watcher"] == wname and
+                     e["hook"] == hname])
+            return n <= 2
         return outcome == 'true'
     hook.__name__ = 'hook_%s' % hname
     return hook
@@ -237,7 +241,8 @@ def lifecycle_cases(requests=('incr', 'decr', 'set', 'restart', 'reload',
                     max_watchers=2, hooks=False, exec_fail=False,
                     children=0, max_ops=30, statuses_full=False,
                     extra_watcher_opts=None, kill_cmd=False, signal_cmd=False,
-                    respawn_false=False, rm=False, quit=False):
+                    respawn_false=False, rm=False, quit=False,
+                    set_other=False):
     """General history generator shared by several properties."""
     from hypothesis import strategies as st
 
@@ -262,7 +267,7 @@ def lifecycle_cases(requests=('incr', 'decr', 'set', 'restart', 'reload',
             singleton = draw(st.integers(0, 5)) == 0
             np_ = draw(st.integers(0, 1)) if singleton else \
                 draw(st.integers(0, 3))
-            gt = draw(st.sampled_from([0.1, 0.3, 1.0]))
+            gt = draw(st.sampled_from([0.1, 0.3, 1.0, 0.1, 0.3, 1.0, 0]))
             gts.append(gt)
             wc = {"name": "w%d" % i, "numprocesses": np_,
                   "graceful_timeout": gt,
@@ -308,8 +313,20 @@ def lifecycle_cases(requests=('incr', 'decr', 'set', 'restart', 'reload',
             'decr': req('decr', ww(st.fixed_dictionaries(
                 {"name": name, "nb": st.integers(1, 2)}))),
             'set': req('set', ww(st.fixed_dictionaries(
-                {"name": name, "options": st.fixed_dictionaries(
-                    {"numprocesses": st.integers(0, 4)})}))),
+                {"name": name, "options": st.one_of(
+                    st.fixed_dictionaries(
+                        {"numprocesses": st.integers(0, 4)}),
+                    st.fixed_dictionaries(
+                        {"numprocesses": st.integers(0, 4)}),
+                    st.sampled_from(
+                        [{"cmd": "other --wid $(circus.wid)"},
+                         {"env": {"A": "b"}}, {"max_age": 0},
+                         {"working_dir": "/tmp"}, {"args": ["x"]},
+                         {"graceful_timeout": 0.2}, {"warmup_delay": 0.05},
+                         {"stop_signal": 2}, {"send_hup": True},
+                         {"numprocesses": 2, "shell": False}]))
+                    if set_other else st.fixed_dictionaries(
+                        {"numprocesses": st.integers(0, 4)})}))),
             'restart': req('restart', ww(st.fixed_dictionaries(
                 {"name": name, "match": st.just("simple")}))),
             'reload': req('reload', ww(st.fixed_dictionaries(
@@ -330,7 +347,8 @@ def lifecycle_cases(requests=('incr', 'decr', 'set', 'restart', 'reload',
             pool.append(req('kill', ww(st.fixed_dictionaries(
                 {"name": name}, optional={
                     "signum": st.sampled_from([15, 2, 10, "HUP"]),
-                    "graceful_timeout": st.sampled_from([0.1, 0.25])}))))
+                    "graceful_timeout": st.sampled_from([0.1, 0.25, 0,
+                                                         0.0, 1.5])}))))
         if signal_cmd:
             pool.append(req('signal', st.fixed_dictionaries(
                 {"name": name, "signum": st.sampled_from([15, 1, 10, 9])})))
